@@ -805,6 +805,11 @@ def _scalar_value_tomof(
                 "for conversion to a MOF string",
                 type, builtin_type(value))
     val = str(value)
+    if isinstance(value, CIMFloat) and '.' not in val and \
+            val.lstrip('+-')[:1].isdigit():
+        # A MOF realValue requires a decimal point (1e+16 -> 1.0e+16)
+        mantissa, exp_char, exponent = val.partition('e')
+        val = mantissa + '.0' + exp_char + exponent
     return mofval(val, indent, maxline, line_pos, end_space)
 
 
